@@ -3,6 +3,7 @@ CONSTANTS
   Procs <- P4
   Types <- RecTypes
   ChildSeq <- RecChild
+  Invalid <- NoneInvalid
   Pkg <- RecPkg
   CallChoices <- NoCalls
   Guard = "mutex"
